@@ -85,7 +85,7 @@ PROPS = {
             # the background loop's pass (non-forced) and the quiescence it waits for
             {"cmd": "bt", "scenario": "c16q", "quick": 80, "thorough": 2000},
         ],
-        "facts": [],
+        "facts": ["bt.table_mutex"],
         "trusted": BT_TRUST + ["the 15-60 s timer loop (gcloop) is not modelled; a pass is forced through the verif hook with the injected clock"],
         "assumptions": ["interleaved writes at the lock reversals are SetCells on rows that exist during the whole pass (whether a row inserted during a pass is visited by it is engine dependent and not fixed by the property)"],
     },
@@ -117,7 +117,7 @@ PROPS = {
             # conditioned writers of different kinds racing on one object: exactly one may pass its precondition
             {"cmd": "gcsconc", "scenario": "c07s", "quick": 15, "thorough": 300, "corpus": "gcsconc", "args": {"quick": ["--maxruns", "150"], "thorough": ["--maxruns", "2000"]}},
         ],
-        "facts": [],
+        "facts": ["gcs.lock_keys"],
         "trusted": GCS_TRUST,
         "assumptions": ["'supplied' means non-zero for the three parameters other than ifGenerationMatch (the code cannot tell =0 from unset there)"],
     },
@@ -128,7 +128,7 @@ PROPS = {
             # the versioning laws under concurrent writers of one object (generations still only grow)
             {"cmd": "gcsconc", "scenario": "c07s", "quick": 15, "thorough": 300, "corpus": "gcsconc", "args": {"quick": ["--maxruns", "150"], "thorough": ["--maxruns", "2000"]}},
         ],
-        "facts": [],
+        "facts": ["gcs.lock_keys"],
         "trusted": GCS_TRUST,
         "assumptions": [],
     },
@@ -138,7 +138,7 @@ PROPS = {
             {"cmd": "gcs", "scenario": "c15", "quick": 100, "thorough": 2500},
             {"cmd": "gcs", "scenario": "c15mem", "quick": 60, "thorough": 1500, "engines": "mem"},
         ],
-        "facts": [],
+        "facts": ["gcs.lock_keys"],
         "trusted": GCS_TRUST,
         "assumptions": [],
     },
@@ -158,7 +158,7 @@ PROPS = {
             {"cmd": "btconc", "scenario": "c06s", "quick": 24, "thorough": 600, "no_corpus": True, "args": {"quick": ["--maxruns", "250"], "thorough": ["--maxruns", "3000"]}},
             {"cmd": "bt", "scenario": "c06", "quick": 100, "thorough": 2500},
         ],
-        "facts": ["bt.tables_access_outside_server_mu"],
+        "facts": ["bt.tables_access_outside_server_mu", "bt.table_mutex"],
         "trusted": BT_TRUST + ["sync.RWMutex gives mutual exclusion between a writer and everyone else (the interleaving runs exercise the real mutex; its fairness is not modelled)"],
         "assumptions": ["concurrent requests are parked only at the repository's yield points (before the table lock, inside it after each row fetch); code between two yield points runs as one step"],
     },
@@ -168,7 +168,7 @@ PROPS = {
             {"cmd": "gcsconc", "scenario": "c07s", "quick": 40, "thorough": 800, "corpus": "gcsconc", "args": {"quick": ["--maxruns", "250"], "thorough": ["--maxruns", "3000"]}},
             {"cmd": "gcsconc", "scenario": "c07t", "quick": 10, "thorough": 120, "engines": "file", "corpus": "gcsconc"},
         ],
-        "facts": ["gcs.filestore_fields", "lock.state_access_outside_map_mu"],
+        "facts": ["gcs.filestore_fields", "lock.state_access_outside_map_mu", "gcs.lock_keys", "gcs.filestore_mutex"],
         "trusted": GCS_TRUST + ["the per-object lock is gcsutil.TransientLockMap (C19); sync.RWMutex of the file store and the memory store's mutex make each store operation atomic (the tear scenario parks a writer between the file store's two file writes to check exactly that)"],
         "assumptions": ["concurrent requests are parked only at the repository's yield points (before the object lock, just inside it, right after its release, and — tear scenario — between the file store's content write and sidecar write, and between a file-store read's sidecar read and content read)",
                         "symbolic conditions (generation = current) of the concurrent requests are resolved against the state after the sequential prefix, on both sides"],
@@ -178,7 +178,7 @@ PROPS = {
         "diffs": [
             {"cmd": "btscan", "scenario": "c18", "quick": 10, "thorough": 300, "no_corpus": True},
         ],
-        "facts": [],
+        "facts": ["bt.table_mutex"],
         "trusted": BT_TRUST + ["a goleveldb iterator is a snapshot of the store taken when it is created (this is what the correspondence run checks from outside: rows after the scan position keep their pre-write state within a range, later ranges see the writes)"],
         "assumptions": ["writes are issued from inside the harness's own stream.Send, i.e. exactly in the windows in which the scan has released the table lock; the btree engine is excluded (it documents that it does not offer this)"],
     },
@@ -198,7 +198,7 @@ PROPS = {
             {"cmd": "gcs", "scenario": "c09r", "quick": 80, "thorough": 2000, "engines": "file"},
             {"cmd": "gcs", "scenario": "c09p", "quick": 60, "thorough": 1500, "engines": "file", "no_corpus": True},
         ],
-        "facts": ["gcs.filestore_fields"],
+        "facts": ["gcs.filestore_fields", "gcs.filestore_mutex"],
         "trusted": GCS_TRUST + ["object name <-> file path is one-to-one for names representable as files (the directory structure is not modelled; the generated names are representable)"],
         "assumptions": ["a restart is a new GcsEmu on the same directory (the filestore struct has no field besides the directory name and a mutex — fact gcs.filestore_fields — so a kill between requests leaves nothing else to lose); resumable upload sessions live in the emulator, not in the store, and do not survive a restart"],
     },
@@ -207,7 +207,7 @@ PROPS = {
         "diffs": [
             {"cmd": "robust", "scenario": "c20", "quick": 600, "thorough": 20000, "no_corpus": True},
         ],
-        "facts": ["bt.partial_ops", "gcs.partial_ops", "bt.tables_access_outside_server_mu", "lock.state_access_outside_map_mu", "bt.server_rpc_methods", "gcs.handlers"],
+        "facts": ["bt.partial_ops", "gcs.partial_ops", "bt.tables_access_outside_server_mu", "lock.state_access_outside_map_mu", "bt.server_rpc_methods", "gcs.handlers", "bt.table_mutex", "gcs.filestore_mutex", "gcs.lock_keys"],
         "trusted": ["net/http, gRPC and the Go runtime behave as documented; requests reach the Bigtable service as the wire can carry them (every generated message is encoded and decoded once before the call)"],
         "assumptions": ["PARTIAL: the theorems cover the sequential slicing/indexing sites only; panics elsewhere, data races, fatal runtime errors, hangs and leaks are searched for (request perturbation, concurrent mix in a child process, race detector in the thorough tier), not proved absent"],
     },
